@@ -126,6 +126,32 @@ impl Sty {
         }
         b.build()
     }
+    /// the other public ways to arrive at the same style: builder started from the style, setters in the opposite
+    /// order, and the `with_fill` / `with_stroke` shortcuts where they apply; returns a description of a disagreement
+    pub fn entry_points_disagree<C: TestColor>(&self) -> Option<String> {
+        let st = self.build::<C>();
+        let copy = PrimitiveStyleBuilder::from(&st).build();
+        let mut b = PrimitiveStyleBuilder::new();
+        if self.stroke {
+            b = b.stroke_color(self.stroke_color::<C>());
+        }
+        if self.fill {
+            b = b.fill_color(C::FILL);
+        }
+        let reordered = b.stroke_alignment(alignment(self.al)).stroke_width(self.w).build();
+        // change and restore one field through a builder started from the style
+        let restored = PrimitiveStyleBuilder::from(&PrimitiveStyleBuilder::from(&st).stroke_width(self.w + 1).build()).stroke_width(self.w).build();
+        if copy != st || reordered != st || restored != st {
+            return Some(format!("style {:?}; PrimitiveStyleBuilder::from(&style) {:?}; setters in another order {:?}; width changed and restored {:?}", st, copy, reordered, restored));
+        }
+        if self.fill && !self.stroke && self.w == 0 && self.al == 0 && PrimitiveStyle::with_fill(C::FILL) != st {
+            return Some(format!("with_fill {:?} vs builder {:?}", PrimitiveStyle::with_fill(C::FILL), st));
+        }
+        if !self.fill && self.stroke && self.al == 0 && PrimitiveStyle::with_stroke(self.stroke_color::<C>(), self.w) != st {
+            return Some(format!("with_stroke {:?} vs builder {:?}", PrimitiveStyle::with_stroke(self.stroke_color::<C>(), self.w), st));
+        }
+        None
+    }
     /// inside/outside stroke widths by the documented rule
     pub fn in_out(&self) -> (u32, u32) {
         match self.al {
@@ -147,16 +173,13 @@ pub fn styles_same_color(max_w: u32) -> Vec<Sty> {
     v
 }
 
-/// S(W): fill∈{none,set} × stroke colour∈{none,set} × width 0..=W × 3 alignments (width 0 once per colour pair)
+/// S(W): fill∈{none,set} × stroke colour∈{none,set} × width 0..=W × 3 alignments (also at width 0: the alignment still selects code paths there)
 pub fn styles(max_w: u32) -> Vec<Sty> {
     let mut v = vec![];
     for fill in [false, true] {
         for stroke in [false, true] {
             for w in 0..=max_w {
                 for al in 0..3u8 {
-                    if w == 0 && al != 0 {
-                        continue;
-                    }
                     v.push(Sty { fill, stroke, w, al, same: false });
                 }
             }
@@ -373,6 +396,48 @@ pub fn tri_grid(g: i32, stride: i32, ox: i32, oy: i32) -> Vec<Shape> {
 pub const UNEQ: [(u32, u32); 4] = [(0, 0), (1, 3), (3, 1), (5, 5)];
 
 /// The drawable catalogue of primitive shapes DC(tier) (DESIGN.md section 6).  `pos` = base position.
+/// display-scale catalogue: every primitive kind at sizes 100..=320 px (one 1024 px shape per position), far right of /
+/// below, far left of / above and straddling the origin; sizes whose products pass 2^16
+pub fn display_scale_catalogue() -> Vec<Shape> {
+    let mut v = vec![];
+    for (i, (x, y)) in [(500, 300), (-700, -900), (-150, -100)].into_iter().enumerate() {
+        v.push(Shape::Rect { x, y, w: 320, h: 240 });
+        v.push(Shape::Rect { x, y, w: 1, h: 300 });
+        v.push(Shape::Circle { x, y, d: 255 });
+        v.push(Shape::Circle { x, y, d: 300 });
+        v.push(Shape::Ellipse { x, y, w: 320, h: 240 });
+        v.push(Shape::Ellipse { x, y, w: 255, h: 257 });
+        v.push(Shape::rrect_eq(x, y, 300, 200, (40, 30)));
+        v.push(Shape::RRect { x, y, w: 300, h: 200, tl: (150, 100), tr: (10, 90), br: (0, 0), bl: (200, 200) });
+        v.push(Shape::Tri { a: (x, y), b: (x + 300, y + 20), c: (x + 40, y + 250) });
+        v.push(Shape::Tri { a: (x + 300, y), b: (x, y + 100), c: (x + 150, y + 53) });
+        v.push(Shape::Line { a: (x, y), b: (x + 300, y + 200) });
+        v.push(Shape::Line { a: (x + 100, y + 240), b: (x, y) });
+        v.push(Shape::Arc { x, y, d: 200, start: 120, sweep: 800 });
+        v.push(Shape::Sector { x, y, d: 201, start: -180, sweep: 1200 });
+        v.push(Shape::Sector { x, y, d: 256, start: 1000, sweep: -333 });
+        v.push(Shape::Polyline { pts: vec![(x, y), (x + 200, y + 10), (x + 100, y + 150), (x - 50, y + 60)], tx: if i == 1 { 7 } else { 0 }, ty: 0 });
+        match i {
+            0 => v.push(Shape::Ellipse { x, y, w: 1024, h: 600 }),
+            1 => v.push(Shape::Circle { x, y, d: 1024 }),
+            _ => v.push(Shape::rrect_eq(x, y, 1024, 768, (300, 200))),
+        }
+    }
+    v
+}
+
+/// styles for the display-scale catalogue
+pub fn display_scale_styles() -> Vec<Sty> {
+    vec![
+        Sty { fill: true, stroke: false, w: 0, al: 0, same: false },
+        Sty { fill: false, stroke: true, w: 1, al: 0, same: false },
+        Sty { fill: true, stroke: true, w: 3, al: 1, same: false },
+        Sty { fill: true, stroke: true, w: 20, al: 2, same: false },
+        Sty { fill: false, stroke: true, w: 64, al: 0, same: false },
+        Sty { fill: true, stroke: true, w: 300, al: 1, same: false },
+    ]
+}
+
 pub fn shape_catalogue(thorough: bool, pos: P2) -> Vec<Shape> {
     let (x, y) = pos;
     let mut v = vec![];
@@ -432,6 +497,15 @@ pub fn shape_catalogue(thorough: bool, pos: P2) -> Vec<Shape> {
                 sweep += step;
             }
             start += step;
+        }
+    }
+    // start angles outside [0, 360)
+    for d in [5u32, 8] {
+        for start in [-90, -30, 400, -725] {
+            for sweep in [-300, -90, 45, 200, 390] {
+                v.push(Shape::Arc { x, y, d, start: start * 4, sweep: sweep * 4 });
+                v.push(Shape::Sector { x, y, d, start: start * 4, sweep: sweep * 4 });
+            }
         }
     }
     v
